@@ -745,8 +745,8 @@ def indent(text, by="  "):
 # ====================================================================================================================
 SPECS = [
     dict(file=NAMELIST, fn="validate_understood_properties", coq="gen_validate_understood_properties", kind="validate"),
-    dict(file=BMAD, fn="convert_element", coq="gen_bmad_convert_element", kind="convert_element"),
-    dict(file=ELEGANT, fn="convert_element", coq="gen_elegant_convert_element", kind="convert_element"),
+    dict(file=BMAD, fn="convert_element", coq="gen_bmad_convert_element", kind="convert_element", precondition=True),
+    dict(file=ELEGANT, fn="convert_element", coq="gen_elegant_convert_element", kind="convert_element", precondition=True),
     dict(file=BMAD, fn="convert_lattice_to_cheetah", coq="gen_bmad_merge_passes", kind="passes", part="merge passes"),
     dict(file=ELEGANT, fn="convert_lattice_to_cheetah", coq="gen_elegant_merge_passes", kind="passes", part="merge passes"),
     dict(file=NAMELIST, fn="define_element", coq="gen_define_element_pattern", kind="literal", var="pattern", part="regex literal"),
